@@ -8,6 +8,8 @@ if ! git diff --quiet; then echo "/repo working tree not clean"; exit 9; fi
 git apply "$patch" || { echo "patch does not apply"; exit 9; }
 trap 'git -C /repo checkout -- . ; git -C /repo clean -fdq -e target' EXIT
 cd /verif
+# evidence of runs against a seeded change must not overwrite the committed evidence
+export VERIF_EVIDENCE_DIR=/verif/out/evidence-seeded
 rc_all=0
 for id in "$@"; do
   out=$(timeout 600 ./check "$id" ${CHECK_ARGS:-} 2>&1); rc=$?
